@@ -617,6 +617,30 @@ func V2SFChain() Action {
 	}}
 }
 
+// V1SFChain: a v1 transaction splits a siafund output and a second v1 transaction of the same block spends one of the
+// new outputs (siafund outputs created and spent inside one block; always legal for v1 transactions).
+func V1SFChain() Action {
+	return Action{"v1sfchain", func(bc *BlockCtx) bool {
+		if !bc.V1OK() {
+			return false
+		}
+		w := bc.W
+		p, ok := bc.PickSF(func(c int) bool { return c == AddrV1 })
+		if !ok || p.SiafundOutput.Value < 2 {
+			return false
+		}
+		t1 := types.Transaction{SiafundInputs: []types.SiafundInput{{ParentID: p.ID, UnlockConditions: w.Keys.StdUC(0), ClaimAddress: w.Keys.Addr(AddrV1)}},
+			SiafundOutputs: []types.SiafundOutput{{Value: 1, Address: w.Keys.Addr(AddrV1)}, {Value: p.SiafundOutput.Value - 1, Address: w.Keys.Addr(AddrV1)}}}
+		w.SignV1Whole(&t1)
+		t2 := types.Transaction{SiafundInputs: []types.SiafundInput{{ParentID: t1.SiafundOutputID(0), UnlockConditions: w.Keys.StdUC(0), ClaimAddress: w.Keys.Addr(AddrV1)}},
+			SiafundOutputs: []types.SiafundOutput{{Value: 1, Address: w.Keys.Addr(AddrV1)}}}
+		w.SignV1Whole(&t2)
+		bc.Used[types.Hash256(p.ID)] = true
+		bc.addV1("v1sfchain", t1, t2)
+		return true
+	}}
+}
+
 // V2Attest publishes an attestation.
 func V2Attest() Action {
 	return Action{"v2attest", func(bc *BlockCtx) bool {
